@@ -5,6 +5,7 @@ package engine
 // C19 — a stream is one forward cursor: peeks do not consume, nothing is skipped or repeated.
 
 import (
+	"strings"
 	"bytes"
 	"context"
 	"io"
@@ -317,4 +318,57 @@ func VH_C19_out(vm *VM, inst int) {
 	_, err := FlushOutput(vm, s, Success, nil).Force(context.Background())
 	verify(err == nil, "flush_output raised an error")
 	reach("c19/out", true)
+}
+
+// ---- read_term/2 among the character operations: nothing is lost behind the end token ----
+
+var c19Terms = []string{"a", "aa", "aaa", "aaaa", "f(a)", "foo(a)", " X = 1", "  b", "[a, b]", "'q r'", "1", "12345", "a:-b", "\n\nab", "/* c */ ab", "% c\nab", "\"ab\"", "0'a"}
+var c19Rests = []string{"\nnext.\n", "\n%comment\nbar.\n", " b. ", "\t'x y'.", "\n", "%\nbar.\n"}
+
+// VH_C19_read: text = TERM "." REST on a text stream (inst 0: strings.Reader, 1: host reader delivering chunks of 1..3
+// bytes by case split); read(T1), then position, peek_char, get_char, then read(T2): the cursor stands right behind
+// the end token, so the position is the length of TERM plus 1, peek/get deliver the first character of REST, and the
+// second read delivers REST's term (or end_of_file).
+func VH_C19_read(vm *VM, inst int) {
+	term := c19Terms[choice("term", len(c19Terms))]
+	rest := c19Rests[choice("rest", len(c19Rests))]
+	text := term + "." + rest
+	note("text", text)
+	var src io.Reader = strings.NewReader(text)
+	if inst == 1 {
+		src = &c19Reader{data: []byte(text), chunks: []int{1 + choice("chunk0", 3), 1 + choice("chunk1", 3), 3, 2, 1, 3}}
+	}
+	s := NewInputTextStream(src)
+	s.vm = vm
+	vm.streams.add(s)
+	s.eofAction = eofActionEOFCode
+	t1, pos, pk, gt, t2 := NewVariable(), NewVariable(), NewVariable(), NewVariable(), NewVariable()
+	goal := vConj(
+		NewAtom("read").Apply(s, t1),
+		NewAtom("stream_property").Apply(s, NewAtom("position").Apply(pos)),
+		NewAtom("peek_char").Apply(s, pk),
+		NewAtom("get_char").Apply(s, gt),
+		NewAtom("read").Apply(s, t2),
+	)
+	r := vRunImpl(vm, goal, []Variable{t1, pos, pk, gt, t2}, 1, nil)
+	verify(r.status == "stopped", "reading two terms with character operations in between failed or raised an error")
+	// expected terms: parsed separately
+	p1 := NewParser(vm, strings.NewReader(term+" ."))
+	w1, err := p1.Term()
+	verify(err == nil, "harness: term does not parse")
+	verify(decide(vVariantV(r.answers[0][0], w1, &rRename{}, &rRename{})), "the first read delivers a different term")
+	verify(r.answers[0][1] == Term(Integer(len(term)+1)), "after read/1 the position is not right behind the end token")
+	first := []rune(rest)[0]
+	verify(r.answers[0][2] == Term(Atom(first)), "peek_char after read/1 does not deliver the character right behind the end token")
+	verify(r.answers[0][3] == Term(Atom(first)), "get_char after read/1 does not deliver the character right behind the end token")
+	p2 := NewParser(vm, strings.NewReader(rest[len(string(first)):]))
+	var w2 Term = NewAtom("end_of_file")
+	if p2.More() {
+		w2, err = p2.Term()
+		if err != nil {
+			return // the remainder without its first character is not a term (e.g. the comment sign was consumed): nothing to compare
+		}
+	}
+	verify(decide(vVariantV(r.answers[0][4], w2, &rRename{}, &rRename{})), "the second read does not deliver the next term of the text")
+	reach("c19/read", true)
 }
